@@ -182,7 +182,7 @@ func Damage(t *sim.Tape, frame []byte, fm []ref.Field, other []byte, allowHuge b
 			case 1:
 				nv = 0
 			case 2:
-				nv = 0xFFFF
+				nv = 0xFFFF - t.Int(4) // the top of the range: 16-bit sums with 1..4 wrap here
 			case 3:
 				nv = t.Int(0x10000)
 			case 4:
